@@ -2,6 +2,7 @@ package props
 
 import (
 	"fmt"
+	"runtime"
 	"sync"
 
 	"github.com/RoaringBitmap/roaring/v2"
@@ -26,6 +27,7 @@ func dedupe(rs []recipe) []recipe {
 	var out []recipe
 	for _, r := range rs {
 		b := r.Build()
+		defer runtime.KeepAlive(b)
 		k := fmt.Sprintf("%x|%s|%v|%v", b.M.Hash(), extract.Sig(roaring.VerifViewOf(b.B), false), b.Keep != nil, b.Bytes != nil)
 		if seen[k] {
 			continue
@@ -104,6 +106,8 @@ func kindPairs(va, vb roaring.VerifView) []string {
 // the result against the model; strict adds property C09's oracle on results.
 func runPairCall(ra, rb recipe, ci int, strict bool, st *pairStats) (string, *ev.Fail) {
 	a, b := ra.Build(), rb.Build()
+	defer runtime.KeepAlive(a)
+	defer runtime.KeepAlive(b)
 	if st != nil {
 		for _, k := range kindPairs(roaring.VerifViewOf(a.B), roaring.VerifViewOf(b.B)) {
 			st.add(k)
@@ -195,6 +199,7 @@ const nSelfCalls = 11
 
 func runSelfCall(ra recipe, ci int, strict bool) (string, *ev.Fail) {
 	a := ra.Build()
+	defer runtime.KeepAlive(a)
 	name := "self:" + pairCallName(ci)
 	empty := model.New32()
 	var want *model.Set32
@@ -268,7 +273,7 @@ func pairProduct(name string, pool []recipe, strict bool) *explore.Product {
 func selfProduct(name string, pool []recipe, strict bool) *explore.Product {
 	return &explore.Product{
 		Name: name, Dims: []int{len(pool), nSelfCalls}, Extra: map[string]any{"pool": len(pool)},
-		Run:  func(idx []int) (string, *ev.Fail) { return runSelfCall(pool[idx[0]], idx[1], strict) },
+		Run: func(idx []int) (string, *ev.Fail) { return runSelfCall(pool[idx[0]], idx[1], strict) },
 		Describe: func(idx []int) any {
 			return map[string]string{"a": pool[idx[0]].Name, "call": "self:" + pairCallName(idx[1])}
 		},
